@@ -567,7 +567,9 @@ func (e *specEnv) object(o types.Object) specVal {
 		if kindOf(ob.Type()) == kStruct {
 			return specVal{V: addr, T: types.NewPointer(ob.Type())}
 		}
-		return specVal{V: v.deref(e.st, addr, ob.Type(), e.g()), T: ob.Type()}
+		val := v.deref(e.st, addr, ob.Type(), e.g())
+		v.assumeConstStringSet(g, val, e.st, e.g())
+		return specVal{V: val, T: ob.Type()}
 	}
 	panic(specErr("cannot use %s in a contract", o.Name()))
 }
@@ -1570,10 +1572,19 @@ func loopPos(fn *ssa.Function, li *loopInfo) token.Pos {
 }
 
 // loadOfNamedCell: x is `*cell` where cell is the Alloc of the local variable `name` and the cell exists in this frame
-func (e *specEnv) loadOfNamedCell(x ssa.Value, name string) (Val, types.Type, *ssa.Alloc, bool) {
+func (e *specEnv) loadOfNamedCell(x ssa.Value, name string) (Val, types.Type, ssa.Value, bool) {
 	u, ok := x.(*ssa.UnOp)
 	if !ok || u.Op != token.MUL {
 		return nil, nil, nil, false
+	}
+	if fv, isFV := u.X.(*ssa.FreeVar); isFV && fv.Name() == name {
+		// a captured variable: the cell belongs to the enclosing function
+		cell, ok := e.fr.vals[fv]
+		pt, isPtr := under(fv.Type()).(*types.Pointer)
+		if !ok || !isPtr {
+			return nil, nil, nil, false
+		}
+		return cell, pt.Elem(), fv, true
 	}
 	al, ok := u.X.(*ssa.Alloc)
 	if !ok || al.Comment != name {
